@@ -24,5 +24,5 @@ YOUR TASK: produce {n} DIFFERENT, independent changes to the repository's non-te
   (2) BREAKS the property above, and
   (3) needs something SPECIFIC to manifest: a particular interleaving, a crash or fault at a particular point, a multi-step sequence of operations, an unusual input or configuration, or two cooperating sites -- NOT something that ordinary use (a plain upload followed by a read) would expose at once. Prefer subtle over blatant; avoid changes that make nearly every operation fail.
 For each change write a DEMONSTRATION: a Go test in a NEW directory of the worktree (e.g. {wt}/seeddemo/<name>/demo_test.go, package in the repository's module so that it can import the real packages; use only the real exported constructors, no mocks) that FAILS with the change applied and PASSES on the unchanged tree, and that shows the property violation itself (wrong bytes returned, object lost, leak, wrong routing, ...), not merely a changed internal detail. Run it both ways yourself and report the outputs.
-Deliver, for each change i, these files under {wt}/seedout/<short-name>/ : patch.diff (output of `git diff -- pkg cmd` for ONLY that change, applicable with `git apply` to the unchanged tree), the demonstration test file(s), and notes.md (which clause of the property it breaks, what it needs in order to manifest, the exact commands you ran and their results with and without the change). Make sure each patch.diff was produced from a tree containing only that one change (use `git stash`/`git checkout -- pkg cmd` between changes). Leave the worktree with NO change applied at the end (git status shows only the untracked seeddemo/ and seedout/ directories). Do not remove the worktree.
+Deliver, for each change i, these files under {wt}/seedout/<short-name>/ : patch.diff (output of `git diff -- pkg cmd` for ONLY that change, applicable with `git apply` to the unchanged tree), the demonstration test file(s), and notes.md (which clause of the property it breaks, what it needs in order to manifest, the exact commands you ran and their results with and without the change). Make sure each patch.diff was produced from a tree containing only that one change (use `git checkout -- pkg cmd` between changes; NEVER use `git stash`: the stash is shared with other worktrees). Leave the worktree with NO change applied at the end (git status shows only the untracked seeddemo/ and seedout/ directories). Do not remove the worktree.
 FINAL REPORT: for each change: name, one-paragraph description, what it needs to manifest, demo command + observed result with/without. Be concise.""")
